@@ -55,7 +55,8 @@ def apply_edit(root, m):
 
 
 def revert(saved):
-    for p, s in saved:
+    # restore in reverse order: a file edited twice must end up with its original content
+    for p, s in reversed(saved):
         if s is None:
             if os.path.exists(p):
                 os.remove(p)
